@@ -12,6 +12,7 @@ CONSTANTS
   MaxRuns = 2
   AllowDecor = TRUE
   OnExcChoices = {TRUE, FALSE}
+  PreForceChoices = {TRUE, FALSE}
   StepOps = {"upcall", "addCleanup", "addDetail", "expect", "patch", "useFixture"}
   AllowMulti = FALSE
   Variant = "asRequired"
@@ -20,6 +21,7 @@ CONSTANTS
   CleanOf <- MCCleanOf
   FixtureSetUpFails <- MCFixtureSetUpFails
   FixtureCleanKind <- MCFixtureCleanKind
+  FixtureGatherRaises <- MCFixtureGatherRaises
   FixtureDetails <- MCFixtureDetails
   MismatchDetails <- MCMismatchDetails
 INVARIANT Bracketed
